@@ -144,11 +144,12 @@ CHECKS["C06"] = dict(
                "level, '+' elsewhere, windows cutting the band, limits 0..2^62, continuation from the oldest id to exhaustion or from an arbitrary returned id): "
                "the returned multiset, its order, the fields of every message, page disjointness and the union of pages are compared with the reference.",
     level_note="Trusted: the 40-line reference (key order = time desc then creation order desc, cumulative payload+id+channel <= 65536), message.New/ID.SetTime for "
-               "construction, wall clock only with margins (messages are either expired by >=500 s or live for >=1 h). Cluster survey disabled (nil surveyor). "
+               "construction, wall clock only with margins (messages are either expired by >=500 s or live for >=1 h). The main legs use a nil surveyor; the two-node leg plays the cluster surveyor itself (request handed to the peer store's OnSurvey). "
                "Negative limits are out of the property's domain (C09 covers them).",
     rule="rapid-generated (store, queries) cases; non-trivial = some query has a non-empty candidate set that is a strict subset of the store and (a colliding foreign "
          "contract message, an expired message, or a continuation) is involved; distinct = distinct case value.",
     legs=[dict(name="inmemory", test="^TestQueryInMemory$", quick=dict(n=8000, procs=4, timeout=300), thorough=dict(n=600000, procs=10, timeout=3000)),
+          dict(name="two-nodes", test="^TestQueryTwoNodes$", quick=dict(n=2000, procs=2, timeout=300), thorough=dict(n=200000, procs=4, timeout=2400)),
           dict(name="big-store", test="^TestBigStore$", kind="plain", quick=dict(n=1, procs=1, timeout=300), thorough=dict(n=1, procs=1, timeout=300)),
           dict(name="disk", test="^TestQueryDisk$", quick=dict(n=2000, procs=2, timeout=300), thorough=dict(n=30000, procs=6, timeout=2400))],
 )
